@@ -1075,7 +1075,12 @@ public:
 
   bool is_bottom() const override { return m_product.is_bottom(); }
 
-  bool is_top() const override { return m_product.is_top(); }
+  // The remembered implications (Boolean => constraints / Booleans)
+  // constrain the state too: `b1 := b0` leaves the product at top.
+  bool is_top() const override {
+    return m_product.is_top() && m_bool_to_lincsts.is_top() &&
+           m_bool_to_refcsts.is_top() && m_bool_to_bools.is_top();
+  }
 
   bool_domain_t &first() { return m_product.first(); }
 
